@@ -8,6 +8,8 @@ import (
 
 	casbin "github.com/casbin/casbin/v2"
 	"github.com/casbin/casbin/v2/model"
+	"github.com/casbin/casbin/v2/persist"
+	stringadapter "github.com/casbin/casbin/v2/persist/string-adapter"
 )
 
 // C07: priority order.
@@ -277,8 +279,51 @@ e = subjectPriority(p_eft) || deny
 m = g(r.sub, p.sub) && r.obj == p.obj && r.act == p.act
 `
 
+// rules that reach a model through the persist helpers WITHOUT an enforcer load afterwards (an
+// adapter's LoadPolicy on a model that is then handed to NewEnforcer(model); persist.LoadPolicyLine
+// into the live model) are in priority order like rules added through the API: every permutation
+// of four rules with distinct priorities, the listing ascending and the decision that of the
+// smallest priority.
+func c07PersistHelpers(c *Ctx) {
+	lines := []string{"p, 3, alice, data1, read, deny", "p, 1, alice, data1, read, allow", "p, 2, alice, data1, read, deny", "p, 4, bob, data1, read, allow"}
+	c07Perms(len(lines), len(lines), func(idx []int) {
+		var text []string
+		for _, i := range idx {
+			text = append(text, lines[i])
+		}
+		for _, how := range []string{"adapter-then-new", "loadpolicyline-live"} {
+			mm, _ := model.NewModelFromString(machPriority.Text)
+			var e *casbin.Enforcer
+			if how == "adapter-then-new" {
+				if err := stringadapter.NewAdapter(strings.Join(text, "\n")).LoadPolicy(mm); err != nil {
+					continue
+				}
+				e, _ = casbin.NewEnforcer(mm)
+			} else {
+				e, _ = casbin.NewEnforcer(mm)
+				for _, ln := range text {
+					_ = persist.LoadPolicyLine(ln, e.GetModel())
+				}
+			}
+			pol, _ := e.GetPolicy()
+			sorted := len(pol) == len(lines)
+			for i := 1; i < len(pol); i++ {
+				if pol[i-1][0] > pol[i][0] {
+					sorted = false
+				}
+			}
+			dec, _ := e.Enforce("alice", "data1", "read")
+			if !sorted || !dec {
+				c.Direct(fmt.Sprintf("c07.persist-helpers.%s.%v", how, idx), fmt.Sprintf("rules brought in through the persist helpers are not in priority order: listed %v, Enforce(alice,data1,read)=%v (priority 1 allows)", pol, dec), strings.Join(text, " / "))
+			}
+			c.Count("persist-helpers")
+		}
+	})
+}
+
 func init() {
 	register("C07", func(c *Ctx) {
+		c07PersistHelpers(c)
 		c.Rule = "(a) all insertion orders of <=4 (quick) / <=5 (thorough) rules from an 8-rule pool (ties, negative, \"01\", non-numeric priorities, indeterminate effect) with and without an initial load, then one follow-up call; (b) loads of shuffled contents; (c) every digraph on 3/4 nodes (self loops included) as role graph under subjectPriority. Distinct = op sequence / graph; non-trivial = at least two rules with different priorities or a graph with an edge. Additions: named policy types (p2) with their own priority column at another position than p (or with a p that has none); subject priority with a domain column over random per-domain forests; after every ordering load the index is probed (HasPolicy on every listed rule, RemovePolicy hits its slot)."
 		maxK := 4
 		if c.Thorough() {
